@@ -293,8 +293,10 @@ optGroup H5Group::openOptGroup(const std::string &name) {
 
 
 void H5Group::removeGroup(const std::string &name) {
-    if (hasGroup(name))
-        H5Gunlink(hid, name.c_str());
+    if (hasGroup(name)) {
+        HErr res = H5Gunlink(hid, name.c_str());
+        res.check("H5Group::removeGroup(): Could not unlink group");
+    }
 }
 
 
